@@ -13,17 +13,28 @@ func VerifC15Config(readers int) {
 	c14HashAxioms()
 	mgr := NewRawManager(WithNoConnect())
 	// a first configuration exists already
-	_, err := NewRawConfiguration(mgr, WithNodeList([]string{c14Addrs[2], c14Addrs[0]}))
+	first, err := NewRawConfiguration(mgr, WithNodeList([]string{c14Addrs[2], c14Addrs[0]}))
 	vAssume(err == nil) // (colliding generated ids are rejected: C14)
+	// a configuration derived from overlapping operands (such results may carry spare
+	// capacity); it is shared by the goroutines below, which derive further ones from it
+	shared, err := NewRawConfiguration(mgr, first.And(first))
+	vAssert(err == nil, "C14.and-with-itself")
 	done := 0
 	go func() {
-		// another goroutine builds a configuration (new node + known node)
-		_, _ = NewRawConfiguration(mgr, WithNodeList([]string{c14Addrs[3], c14Addrs[0]}))
+		// another goroutine builds a configuration (new node + known node) and derives one
+		// from the shared configuration
+		c, _ := NewRawConfiguration(mgr, WithNodeList([]string{c14Addrs[3], c14Addrs[0]}))
+		if c != nil {
+			_, _ = NewRawConfiguration(mgr, shared.And(c))
+		}
 		done++
 	}()
 	for r := 0; r < readers; r++ {
 		go func() {
-			switch vChoice("reader", 4) {
+			switch vChoice("reader", 5) {
+			case 4:
+				_, _ = NewRawConfiguration(mgr, shared.And(first))
+				_, _ = NewRawConfiguration(mgr, shared.Except(first))
 			case 0:
 				for _, id := range mgr.NodeIDs() {
 					_ = id
